@@ -159,7 +159,7 @@ CLAIMS = {
              "equalities of lifted terms; every estimator fits through the same _glm_fit as "
              "GeneralizedLinearEstimator. Limit reductions, SLOPE vs L1, Efron vs Breslow, Gram "
              "vs CD and replicated rows are not decided."
-             " Cox: without tied events the Efron terms are the Breslow terms (value, raw_grad, raw_hessian).",
+             " Cox: without tied events the Efron terms are the Breslow terms (value, raw_grad, raw_hessian). WeightedQuadratic with integer sample weights equals Quadratic on replicated rows (value, coordinate gradients, Lipschitz constants, intercept step); WeightedGroupL2 on singleton groups equals WeightedL1 (value, prox, score; both values of positive).",
         design_ref="DESIGN.md §3.5 R-RED, §4 C14",
         note="Same trusted base as C06.",
         technique="substitution on lifted terms + normal-form equality",
